@@ -664,6 +664,17 @@ func walkFamilies(r *eng.Run, st *wstats, sizes map[string]int) []job {
 	}
 	// family walk.kinds: all shapes (n<=4) x all kind vectors, status ok, trackers, single walk
 	// (n <= 3 is covered with all status vectors by walk.full3 below)
+	kindTrackers := trackers
+	full3Modes := modesFor
+	if !r.Thorough() {
+		kindTrackers = []string{"map"} // tracker x kinds interplay is covered by walk.full3
+		full3Modes = func(n int) []string {
+			if n < 2 {
+				return []string{"single"}
+			}
+			return []string{"single", "two-10"}
+		}
+	}
 	for n := 4; n <= 4; n++ {
 		n := n
 		for _, sh := range shapes(n, ml3) {
@@ -683,7 +694,7 @@ func walkFamilies(r *eng.Run, st *wstats, sizes map[string]int) []job {
 							kinds[i] = innerKinds[k]
 						}
 					}
-					for _, tr := range trackers {
+					for _, tr := range kindTrackers {
 						c := &wcase{Fam: "walk.kinds", N: n, Ch: plain(sh), Kinds: kinds, Status: make([]int, n), Tracker: tr, Mode: "single"}
 						run(c, sharing)
 						cnt++
@@ -715,7 +726,7 @@ func walkFamilies(r *eng.Run, st *wstats, sizes map[string]int) []job {
 					}
 					product(n, func(int) int { return 3 }, func(stv []int) {
 						for _, tr := range trackers {
-							for _, md := range modesFor(n) {
+							for _, md := range full3Modes(n) {
 								c := &wcase{Fam: "walk.full3", N: n, Ch: plain(sh), Kinds: append([]string{}, kinds...), Status: append([]int{}, stv...), Tracker: tr, Mode: md}
 								run(c, sharing)
 								cnt++
